@@ -306,7 +306,33 @@ func Corpus() []CorpusScenario {
 				{{Op: pipeline.Delete, Obj: ing("ns1", "ing2", nil)}},
 			},
 		},
+		{
+			// a TCP service whose rule has a hostname (SNI) and a backend of kind `resource`: the
+			// host must not stay behind with an empty backend (`bucket.local __` in the sni map);
+			// the same with a missing service and with a second declaration of the host
+			Name: "19-tcp-service-host-without-backend",
+			Opt:  Opt{},
+			H: [][]pipeline.Change{
+				creates(svc("ns1", "svc1"), EndpointsRef("ns1", "svc1", "http", 8080, []string{"10.1.0.1"}, nil, 0),
+					ing("ns1", "ing1", map[string]string{"tcp-service-port": "7000"}, rule("a.example", pth("/", "svc1"))),
+					ingResource(ing("ns1", "ing2", map[string]string{"tcp-service-port": "7000"}, rule("bucket.local", pth("/", "svc1")))),
+					ing("ns1", "ing3", map[string]string{"tcp-service-port": "7000"}, rule("b.example", pth("/", "nosuch")), rule("a.example", pth("/", "svc1")))),
+				creates(ingResource(ing("ns1", "ing4", map[string]string{"tcp-service-port": "7001"}, rule("bucket.local", pth("/", "svc1")))),
+					ingResource(ing("ns1", "ing5", map[string]string{"tcp-service-port": "7001"}, rule("", pth("/", "svc1"))))),
+				{{Op: pipeline.Delete, Obj: ing("ns1", "ing1", nil)}},
+			},
+		},
 	}
+}
+
+// ingResource turns the backend of every path into a `resource`.
+func ingResource(i *networking.Ingress) *networking.Ingress {
+	for r := range i.Spec.Rules {
+		for p := range i.Spec.Rules[r].HTTP.Paths {
+			i.Spec.Rules[r].HTTP.Paths[p].Backend = ResourceBackend()
+		}
+	}
+	return i
 }
 
 func authSvc() client.Object {
